@@ -306,6 +306,12 @@ I5_SCRIPTS = {
     "list-of-floats-element": "ws = [0.5, 1.5]\nk = 1\nv = ws[k]\nmon.write(v)\n",
     "abs-min-max-float": "x = -2.5\na = abs(x)\nb = max(x, 1)\nc = min(x, 0.5)\nmon.write(a)\nmon.write(b)\nmon.write(c)\n",
     "conditional-float-int": "c = 1\nv = 2.5 if c > 0 else 1\nmon.write(v)\n",
+    "augmented-division-on-parameter": "def halve(v):\n    v /= 2\n    return v\nr = halve(3)\nmon.write(r)\n",
+    "augmented-float-on-parameter": "def grow(v):\n    v += 0.5\n    v *= 1.5\n    return v\nr = grow(2)\nmon.write(r)\n",
+    "augmented-float-on-loop-hoisted": "for i in range(3):\n    acc = i\n    acc += 0.25\n    mon.write(acc)\n",
+    "for-hoisted-int-then-float-same-body": "for i in range(4):\n    ratio = i\n    ratio = ratio / 4\n    mon.write(ratio)\n",
+    "for-hoisted-int-then-float-in-function": "def ramp(n):\n    for i in range(n):\n        level = i\n        level = level * 0.375\n    return level\nr = ramp(6)\nmon.write(r)\n",
+    "while-hoisted-int-then-float": "k = 0\nwhile k < 3:\n    part = k\n    part = part / 2\n    mon.write(part)\n    k = k + 1\n",
     "int-then-float-reassign": "x = 1\nx = 2.5\nmon.write(x)\n",
 }
 
